@@ -27,6 +27,8 @@ type Keyer struct {
 	spill   map[*ssa.Alloc]ssa.Value // allocs that only hold a spilled value
 	captured map[*ssa.Alloc]bool
 	Opaque  map[*ssa.Function]bool // callees never inlined (rules refer to them by name)
+	// NormGetters keys calls of generated protobuf getters like loads of the field they return.
+	NormGetters bool
 }
 
 func NewKeyer(p *Prog, fn *ssa.Function) *Keyer {
@@ -344,6 +346,11 @@ func (k *Keyer) callKey(c *ssa.Call) string {
 		name = shorten(callee.String())
 		if getterLike(callee) {
 			unique = false
+		}
+		if k.NormGetters && strings.HasPrefix(callee.Name(), "Get") && len(c.Call.Args) == 1 && callee.Signature.Recv() != nil && k.P.isGenerated(callee) {
+			if f := accessorField(k.P, callee); f != "" {
+				return k.Key(c.Call.Args[0]) + "->" + f
+			}
 		}
 	} else if b, ok := c.Call.Value.(*ssa.Builtin); ok {
 		name = "builtin " + b.Name()
